@@ -96,6 +96,28 @@ Proof.
   eapply read_denied; [exact G | congruence].
 Qed.
 
+(* NOTIFICATIONS: "never returns the value" includes the data change notifications of monitored items.  What
+   ChangeNotification hands to the subscriptions for a node lacking CurrentRead is BadUserAccessDenied without a value, for
+   every monitored item and attribute, after a write (the node may well grant CurrentWrite) as for the initial notification *)
+Theorem C31_notification_denied : forall items sp ns k n,
+  ns <? sp_ns sp = true -> get_node sp k = Some n -> lacks n FlagCurrentRead = true ->
+  forall e, In e (snd (notify_vals items sp (ns, k))) -> snd e = denied.
+Proof.
+  intros items sp ns k n Hns Hg Hl e He.
+  eapply notify_vals_denied; [exact Hns | exists n; split; [exact Hg | apply same_but_class_refl] | exact Hl | exact He].
+Qed.
+
+(* ... and the state the notifications leave is the one the Write handler continues with (Model.Server.notify) *)
+Theorem C31_notification_is_the_handlers : forall items sp n, fst (notify_vals items sp n) = notify items sp n.
+Proof. exact notify_vals_space. Qed.
+
+Example C31_ex_write_only : (* CurrentWrite without CurrentRead: the write is accepted, the subscriber is not told the value *)
+  let sp := Space 1 [(7, Node [(AttrAccessLevel, DV (VU8 2) 0)] [] (Some (Some (DV (VU32 5) 0))))] in
+  let items := [(1, Item 1 (Some 9) (0, 7) AttrValue 0)] in
+  snd (write_one sp ((0, 7), AttrValue, DV (VU32 6) 0)) = StOK /\
+  snd (notify_vals items (fst (write_one sp ((0, 7), AttrValue, DV (VU32 6) 0))) (0, 7)) = [(1, denied)].
+Proof. vm_compute. split; reflexivity. Qed.
+
 (* the hypotheses are satisfiable by the interesting shapes: a read-only level, a wrong type, a missing Variant *)
 Example C31_ex_readonly : lacks (Node [(AttrAccessLevel, DV (VU8 1) 0)] [] (Some (Some (DV (VU32 5) 0)))) FlagCurrentWrite = true
   /\ lacks (Node [(AttrAccessLevel, DV (VU8 1) 0)] [] None) FlagCurrentRead = false.
@@ -118,3 +140,5 @@ Print Assumptions C31_write_denied.
 Print Assumptions C31_write_request.
 Print Assumptions C31_history_value_unchanged.
 Print Assumptions C31_history_read_denied.
+Print Assumptions C31_notification_denied.
+Print Assumptions C31_notification_is_the_handlers.
